@@ -185,6 +185,10 @@ def run(ctx, rep) -> None:
 
     rep.attempt("selector_construction", selector_construction, ctx, rep, "C07.3")
     rep.attempt("global_selector_is_ownership_independent", global_selector_is_ownership_independent, ctx, rep, "C07.3")
+    from .c03 import _Proxy
+    from .c17 import _dispatch_tables
+
+    rep.attempt("distributor_dispatch", _dispatch_tables, ctx, _Proxy(rep, "C17.4", "C07.3"), only=("_instantiate_distributor",))
     rep.attempt("collective_uniformity", collective_uniformity, ctx, rep, "C07.3", {"HSDPDistributor"})
     rep.attempt("buffer_protocol", buffer_protocol, ctx, rep, "C07.3", HSDP)
     from .common import utility_semantics
